@@ -92,7 +92,7 @@ func hashBytes(seed int64, name string, n int) []byte {
 // verifyPSS is the oracle for token types 2 and 3: crypto/rsa directly.
 func verifyPSS(pub *rsa.PublicKey, tok tokens.Token) error {
 	h := sha512.New384()
-	h.Write(tok.AuthenticatorInput())
+	h.Write(authInput(tok))
 	return rsa.VerifyPSS(pub, crypto.SHA384, h.Sum(nil), tok.Authenticator,
 		&rsa.PSSOptions{Hash: crypto.SHA384, SaltLength: 48})
 }
@@ -325,3 +325,12 @@ func (i batchIssuer2) Evaluate(req tokens.TokenRequest) ([]byte, error) {
 type bigInt = big.Int
 
 var attMu sync.Mutex
+
+// authInput is the authenticator input of a token, concatenated here
+// independently of the library: type || nonce || context || key id.
+func authInput(tok tokens.Token) []byte {
+	in := []byte{byte(tok.TokenType >> 8), byte(tok.TokenType)}
+	in = append(in, tok.Nonce...)
+	in = append(in, tok.Context...)
+	return append(in, tok.KeyID...)
+}
